@@ -43,7 +43,9 @@ var addrKinds = []struct {
 // "timeout": the resolver gives up only when the lookup's own deadline has passed and returns that context's error
 // "names-with-error": the resolver returns an error next to some names (net.LookupAddr does when it filtered out a
 // malformed record): a failed lookup all the same - no names attached, nothing remembered
-var behaviours = []string{"names", "empty", "error", "slow", "timeout", "names-with-error"}
+// "second-call-fails": the address's first lookup takes 5 ms and succeeds, any overlapping second one takes 10 ms and fails
+// (a flaky resolver): entries of that address carry the names or nothing, and the success, once stored, stays stored
+var behaviours = []string{"names", "empty", "error", "slow", "timeout", "names-with-error", "second-call-fails"}
 
 // the behaviours of the exhaustive cross product (genA); "timeout" appears in the recovery items
 const crossBehaviours = 4
@@ -97,6 +99,12 @@ func runA(sc *AScn, prefix []int, sig []uint32) (*vsched.Exec, *result.Results, 
 			return nil, errors.New("lookup failed")
 		case "names-with-error":
 			return []string{"name-of-" + a + "."}, errors.New("lookup failed: a malformed record was filtered out")
+		case "second-call-fails":
+			if calls[a] >= 2 {
+				vtime.Sleep(10 * time.Millisecond)
+				return nil, errors.New("lookup failed (flaky resolver)")
+			}
+			vtime.Sleep(5 * time.Millisecond)
 		case "slow":
 			vtime.Sleep(3 * time.Second)
 		}
@@ -191,20 +199,32 @@ func checkA(sc *AScn, x *vsched.Exec, before, doc *result.Results, calls map[str
 	}
 	run, brun := doc.Traceroute.Runs[0], before.Traceroute.Runs[0]
 	eq := func(a, b []string) bool { return (len(a) == 0 && len(b) == 0) || reflect.DeepEqual(a, b) }
+	flaky := func(ip net.IP) bool { return len(ip) > 0 && behaviours[sc.Beh[ip.String()]] == "second-call-fails" }
+	namesOrNothing := func(got []string, ip net.IP) bool {
+		return len(got) == 0 || reflect.DeepEqual(got, []string{"name-of-" + ip.String() + "."})
+	}
 	if sc.Dest2 > 0 {
 		if len(doc.Traceroute.Runs) != 2 {
 			return "document-altered", "second run lost"
 		}
 		d2 := doc.Traceroute.Runs[1].Destination
-		if !eq(d2.ReverseDns, want(d2.IPAddress)) {
+		if !flaky(d2.IPAddress) && !eq(d2.ReverseDns, want(d2.IPAddress)) {
 			return "destination-names", fmt.Sprintf("destination %s of the second run: got %v want %v", d2.IPAddress, d2.ReverseDns, want(d2.IPAddress))
 		}
 	}
-	if !eq(run.Destination.ReverseDns, want(run.Destination.IPAddress)) {
+	if flaky(run.Destination.IPAddress) {
+		if !namesOrNothing(run.Destination.ReverseDns, run.Destination.IPAddress) {
+			return "destination-names", fmt.Sprintf("destination %s (flaky resolver): got %v", run.Destination.IPAddress, run.Destination.ReverseDns)
+		}
+	} else if !eq(run.Destination.ReverseDns, want(run.Destination.IPAddress)) {
 		return "destination-names", fmt.Sprintf("destination %s (%d-byte form): got %v want %v", run.Destination.IPAddress, len(run.Destination.IPAddress), run.Destination.ReverseDns, want(run.Destination.IPAddress))
 	}
 	for i, h := range run.Hops {
-		if !eq(h.ReverseDns, want(h.IPAddress)) {
+		if flaky(h.IPAddress) {
+			if !namesOrNothing(h.ReverseDns, h.IPAddress) {
+				return "hop-names", fmt.Sprintf("hop %d %s (flaky resolver): got %v", i+1, h.IPAddress, h.ReverseDns)
+			}
+		} else if !eq(h.ReverseDns, want(h.IPAddress)) {
 			return "hop-names", fmt.Sprintf("hop %d %s (%d-byte form): got %v want %v", i+1, h.IPAddress, len(h.IPAddress), h.ReverseDns, want(h.IPAddress))
 		}
 		b := brun.Hops[i]
